@@ -158,7 +158,8 @@ Proof.
   intro H. exists st. split; [reflexivity|].
   destruct (st_prim st) eqn:Ep; destruct v; try discriminate.
   - left. eexists; split; [reflexivity|]. apply andb_true_iff in H as [H _]. apply andb_true_iff in H as [H1 H2]. auto.
-  - left. eexists; split; [reflexivity|]. apply andb_true_iff in H as [H _]. apply andb_true_iff in H as [H1 H2]. auto.
+  - left. eexists; split; [reflexivity|]. apply andb_true_iff in H as [H _]. apply andb_true_iff in H as [H _].
+    apply andb_true_iff in H as [H1 H2]. auto.
   - right; left. eexists; split; [reflexivity|]. split; [auto|]. apply andb_true_iff in H as [H _].
     unfold float_ok in H. unfold float_facets_ok. apply andb_true_iff in H as [H H3]. apply andb_true_iff in H as [_ H2].
     rewrite H2, H3. reflexivity.
@@ -218,7 +219,7 @@ Proof.
     + left. split; [reflexivity|]. intros a' Ha'. discriminate.
     + right; left. exists s. split; [reflexivity|]. split; [exact Eps|]. apply andb_true_iff in Hkc as [Hp Hl].
       split; [exact Hp|]. unfold lex_ok_named in Hl. rewrite Est in Hl. unfold lex_ok in Hl.
-      destruct (st_prim st); simpl in Eps; try discriminate; exact Hl.
+      destruct (st_prim st); simpl in Eps; try discriminate; [exact Hl | apply andb_true_iff in Hl as [_ Hl]; exact Hl].
 Qed.
 
 Lemma scalar_card m (v : value) req :
